@@ -76,7 +76,7 @@ def make_specs(ctx):
 
     def add(label, cls, X, kwargs=None, np_seed=None):
         out.append((label, {'cls': cls, 'kwargs': kwargs or {}, 'X': [float(v) for v in X], 'np_seed': np_seed}))
-    reps = 1 if quick else 6
+    reps = 1 if quick else 12
     for rep in range(reps):
         for i, fam in enumerate(SCIPY_FAMS):
             cls = univ.FAM_CLASS[fam]
